@@ -23,31 +23,31 @@ var genDirs = []string{"codegen", "codegen/cli", "codegen/example", "codegen/gen
 	"http/codegen", "http/codegen/openapi", "http/codegen/openapi/v2", "http/codegen/openapi/v3", "grpc/codegen", "cmd/goa"}
 
 // reviewedMapRanges: sites whose order-sensitivity findings were read one by
-// one; key = function + "#" + ranged expression; value = the accepted findings
+// one; key = function + "#" + ranged expression in the canonical vocabulary of an.CanonExpr (receiver recv, parameters pN, opaque locals ‹type›); value = the accepted findings
 // (exact strings) with the reason in the comment.
 var reviewedMapRanges = map[string][]string{
 	// single-entry package map (one replacement pair); keys cannot overlap
 	"codegen.SnakeCase#toLower": {"assignment of an element-dependent value to name (last or first match wins)"},
 	// import lists: their order is erased by finalizeGoSource (ast.SortImports + imports.Process)
-	"codegen.safelyGetMetaTypeImports#uniqueImports":         {"slice imports is filled in map order and not sorted afterwards"},
-	"codegen/service.ConvertFile#ppm":                        {"slice pkgs is filled in map order and not sorted afterwards"},
-	"codegen/service.Data.initUserTypeImports#importsByPath": {"slice imports is filled in map order and not sorted afterwards"},
-	"codegen/service.Data.initUserTypeImports#m.ErrorLocs":   {"call with unknown effects: goa.design/goa/v3/codegen/service.initLoc"}, // stores into a map keyed by path
+	"codegen.safelyGetMetaTypeImports#‹map[codegen.ImportSpec]struct{}›":        {"slice imports is filled in map order and not sorted afterwards"},
+	"codegen/service.ConvertFile#‹map[string]string›":                           {"slice pkgs is filled in map order and not sorted afterwards"},
+	"codegen/service.Data.initUserTypeImports#‹map[string]*codegen.ImportSpec›": {"slice imports is filled in map order and not sorted afterwards"},
+	"codegen/service.Data.initUserTypeImports#‹*service.MethodData›.ErrorLocs":  {"call with unknown effects: goa.design/goa/v3/codegen/service.initLoc"}, // stores into a map keyed by path
 	// error text only: which pair of a dependency cycle is named
-	"eval.DSLContext.Roots#rootDeps": {"call with unknown effects: (goa.design/goa/v3/eval.Expression).EvalName", `returns a value that depends on the element visited: fmt.Errorf("dependency cycle: %s and %s depend on each other (directly or not)", root.EvalName(), other.EvalName())`},
+	"eval.DSLContext.Roots#‹map[string][]eval.Root›": {"call with unknown effects: (goa.design/goa/v3/eval.Expression).EvalName", `returns a value that depends on the element visited: fmt.Errorf("dependency cycle: %s and %s depend on each other (directly or not)", root.EvalName(), other.EvalName())`},
 	// debug printer, not reachable from Generate
-	"expr.AttributeExpr.debug#a.Meta": {"call with unknown effects: fmt.Printf"},
+	"expr.AttributeExpr.debug#recv.Meta": {"call with unknown effects: fmt.Printf"},
 	// value conversion into a fresh map (map stores), recursion on values
-	"expr.MapVal.ToMap#m": {"call with unknown effects: (goa.design/goa/v3/expr.ArrayVal).ToSlice", "call with unknown effects: (goa.design/goa/v3/expr.MapVal).ToMap"},
+	"expr.MapVal.ToMap#recv": {"call with unknown effects: (goa.design/goa/v3/expr.ArrayVal).ToSlice", "call with unknown effects: (goa.design/goa/v3/expr.MapVal).ToMap"},
 	// deletes attributes by name from the body object: commutative
-	"expr.httpRequestBody#defaultRequestHeaderAttributes(a)": {"call with unknown effects: goa.design/goa/v3/expr.removeAttribute"},
+	"expr.httpRequestBody#defaultRequestHeaderAttributes(p0)": {"call with unknown effects: goa.design/goa/v3/expr.removeAttribute"},
 	// map-to-map copies through helper calls
-	"http/codegen/openapi.Schema.Dup#s.Properties":            {"call with unknown effects: (*goa.design/goa/v3/http/codegen/openapi.Schema).Dup"},
-	"http/codegen/openapi.Schema.Dup#s.Definitions":           {"call with unknown effects: (*goa.design/goa/v3/http/codegen/openapi.Schema).Dup"},
-	"http/codegen/openapi.ToStringMap#actual":                 {"call with unknown effects: goa.design/goa/v3/http/codegen/openapi.ToStringMap", "call with unknown effects: goa.design/goa/v3/http/codegen/openapi.ToString"},
-	"http/codegen/openapi/v3.toStringMap#actual":              {"call with unknown effects: goa.design/goa/v3/http/codegen/openapi/v3.toStringMap", "call with unknown effects: goa.design/goa/v3/http/codegen/openapi/v3.toString"},
-	"http/codegen/openapi.extensionsFromExprWithPrefix#mdata": {"call with unknown effects: encoding/json.Unmarshal"},
-	"http/codegen/openapi.propertiesFromDefs#definitions":     {"call with unknown effects: goa.design/goa/v3/http/codegen/openapi.NewSchema"},
+	"http/codegen/openapi.Schema.Dup#recv.Properties":      {"call with unknown effects: (*goa.design/goa/v3/http/codegen/openapi.Schema).Dup"},
+	"http/codegen/openapi.Schema.Dup#recv.Definitions":     {"call with unknown effects: (*goa.design/goa/v3/http/codegen/openapi.Schema).Dup"},
+	"http/codegen/openapi.ToStringMap#actual":              {"call with unknown effects: goa.design/goa/v3/http/codegen/openapi.ToStringMap", "call with unknown effects: goa.design/goa/v3/http/codegen/openapi.ToString"},
+	"http/codegen/openapi/v3.toStringMap#actual":           {"call with unknown effects: goa.design/goa/v3/http/codegen/openapi/v3.toStringMap", "call with unknown effects: goa.design/goa/v3/http/codegen/openapi/v3.toString"},
+	"http/codegen/openapi.extensionsFromExprWithPrefix#p0": {"call with unknown effects: encoding/json.Unmarshal"},
+	"http/codegen/openapi.propertiesFromDefs#p0":           {"call with unknown effects: goa.design/goa/v3/http/codegen/openapi.NewSchema"},
 }
 
 func runC09(c *an.Ctx) string {
@@ -72,30 +72,34 @@ func r091MapOrder(c *an.Ctx) {
 			for _, mr := range an.MapRanges(f, nil) {
 				n++
 				counts[mr.Class]++
-				key := f.Name + "#" + types.ExprString(mr.Stmt.X)
-				construct := f.Name + "#range(" + types.ExprString(mr.Stmt.X) + ")"
 				if mr.Class != "order-sensitive" {
-					c.Add(an.Obligation{Rule: rule, Construct: construct, Status: an.OK, Detail: mr.Class, Nontrivial: true})
+					c.Add(an.Obligation{Rule: rule, Construct: f.Name + "#range(" + types.ExprString(mr.Stmt.X) + ")", Status: an.OK, Detail: mr.Class, Nontrivial: true})
 					continue
 				}
-				allowed, reviewed := reviewedMapRanges[key]
-				var extra []string
-				for _, r := range mr.Reasons {
-					ok := false
-					for _, a := range allowed {
-						if a == r {
-							ok = true
+				// an order-sensitive site is named in the reference vocabulary (parameters by position, locals by
+				// definition, code of extracted helpers attributed to the functions it came from), so that the
+				// reviewed table and the known findings follow renames and extractions
+				for _, key := range c.SiteKeys(f, mr.Stmt.X) {
+					construct := strings.Replace(key, "#", "#range(", 1) + ")"
+					allowed, reviewed := reviewedMapRanges[key]
+					var extra []string
+					for _, r := range mr.Reasons {
+						ok := false
+						for _, a := range allowed {
+							if a == r {
+								ok = true
+							}
+						}
+						if !ok {
+							extra = append(extra, r)
 						}
 					}
-					if !ok {
-						extra = append(extra, r)
+					if reviewed && len(extra) == 0 {
+						c.Okf(rule, construct, "order-sensitive shape reviewed and accepted (%d findings, see the table's reason)", len(mr.Reasons))
+						continue
 					}
+					c.Failf(rule, construct, mr.Stmt.Pos(), "generated output can depend on map iteration order: %s", strings.Join(extra, "; "))
 				}
-				if reviewed && len(extra) == 0 {
-					c.Okf(rule, construct, "order-sensitive shape reviewed and accepted (%d findings, see the table's reason)", len(mr.Reasons))
-					continue
-				}
-				c.Failf(rule, construct, mr.Stmt.Pos(), "generated output can depend on map iteration order: %s", strings.Join(extra, "; "))
 			}
 		}
 	}
@@ -390,7 +394,10 @@ func r095Cleanup(c *an.Ctx) {
 					genIdx = i
 				}
 			case *parse.RangeNode:
-				fields := an.TplFields(x.Pipe)
+				var fields []string // what the range iterates over (the variables it declares are not inputs)
+				for _, cmd := range x.Pipe.Cmds {
+					fields = append(fields, an.TplFields(cmd)...)
+				}
 				txt := an.TplText(x.List)
 				if len(fields) == 1 && fields[0] == ".CleanupDirs" && strings.Contains(txt, "os.RemoveAll(") {
 					wipeIdx = i
@@ -498,39 +505,88 @@ func r096Sorted(c *an.Ctx) {
 	if f == nil {
 		return
 	}
+	ok, why := sortedResult(c, f, 0)
+	c.Check(ok, rule, f.Name, f.Decl.Pos(), "the written-file list is sorted before it is returned", why)
+}
+
+// sortedResult reports whether every non-nil first result returned by f passed sort.Strings: the returned
+// variable is sorted by a call that dominates the return, or its only definitions are calls of module
+// functions for which the same holds (helpers extracted from f).
+func sortedResult(c *an.Ctx, f *an.Func, depth int) (bool, string) {
 	info := f.Pkg.TypesInfo
 	g := an.NewCFG(info, f.Decl.Body)
-	// the named result / variable holding the outputs
 	sortLocs, sortCalls := g.FindCalls(func(call *ast.CallExpr) bool { return an.IsCallTo(info, call, "sort.Strings") })
-	var outObj types.Object
-	if len(sortCalls) > 0 {
-		outObj = an.ObjOf(info, sortCalls[0].Args[0])
+	sortedCall := func(e ast.Expr) bool {
+		call, isCall := an.Unparen(e).(*ast.CallExpr)
+		if !isCall || depth >= 2 {
+			return false
+		}
+		h := c.FuncOfObj(an.Callee(info, call))
+		if h == nil {
+			return false
+		}
+		ok, _ := sortedResult(c, h, depth+1)
+		return ok
 	}
-	ok := outObj != nil
-	var why string
+	seen := 0
 	for _, r := range g.ReturnLocs() {
 		if r.Idx >= len(r.Block.Nodes) {
 			continue
 		}
 		rs := r.Block.Nodes[r.Idx].(*ast.ReturnStmt)
-		if len(rs.Results) == 0 || an.ObjOf(info, rs.Results[0]) != outObj || outObj == nil {
+		var res ast.Expr
+		if len(rs.Results) > 0 {
+			res = rs.Results[0]
+		} else if fl := f.Decl.Type.Results; fl != nil && len(fl.List) > 0 && len(fl.List[0].Names) > 0 {
+			res = fl.List[0].Names[0]
+		}
+		if res == nil || an.IsNilIdent(info, res) {
 			continue
 		}
+		seen++
+		if sortedCall(res) {
+			continue
+		}
+		obj := an.ObjOf(info, res)
+		if obj == nil {
+			return false, "the list of written files is returned without passing sort.Strings"
+		}
 		dominated := false
-		for _, s := range sortLocs {
-			if g.LocDominates(s, r) {
+		for i, s := range sortLocs {
+			if an.ObjOf(info, sortCalls[i].Args[0]) == obj && g.LocDominates(s, r) {
 				dominated = true
 			}
 		}
-		if !dominated {
-			ok = false
-			why = "the list of written files is returned without passing sort.Strings"
+		if dominated {
+			continue
+		}
+		// every definition of the variable is the result of a function that sorts
+		defs, allSorted := 0, true
+		ast.Inspect(f.Decl.Body, func(n ast.Node) bool {
+			if as, isAs := n.(*ast.AssignStmt); isAs {
+				for i, l := range as.Lhs {
+					if an.ObjOf(info, l) != obj {
+						continue
+					}
+					if len(as.Rhs) == len(as.Lhs) && an.IsNilIdent(info, as.Rhs[i]) {
+						continue // the list is dropped, not replaced
+					}
+					defs++
+					if len(as.Rhs) != len(as.Lhs) || !sortedCall(as.Rhs[i]) {
+						allSorted = false
+					}
+				}
+			}
+			return true
+		})
+		if defs == 0 || !allSorted {
+			return false, "the list of written files is returned without passing sort.Strings"
 		}
 	}
-	if outObj == nil {
-		why = "no sort.Strings(outputs) call found"
+	if seen == 0 {
+		return false, "no returned list found"
 	}
-	c.Check(ok, rule, f.Name, f.Decl.Pos(), "the written-file list is sorted before it is returned", why)
+	return true, ""
 }
 
 func r097ErrGates(c *an.Ctx) {
